@@ -135,15 +135,16 @@ TEXT = {
   "technique": "Coq proof (acceptance of every byte string the specification decoder accepts, any property order, all 15 types; refutation witness for D13) + specification-encoder-driven acceptance oracle",
  },
  "C09": {
-  "level": "Theorems C09a_whole_frames / C09a_read_packet: for every valid frame (frame_ok: all 15 types, properties in any order) and every cut "
-           "position strictly inside a segment of the reference encoder's field map (body_segs: 2/4-byte integers, strings, property length, "
-           "properties, topic filters; single bytes, raw payload and reason-code list have no interior) UnmarshalBinary on the cut body errs and "
-           "ReadPacket - remaining length equal to the shortened size, any delivery, anything after - returns the error and no packet "
-           "(Proofs/CutP.v: chains of step_ok/cut_ok links per packet type, getany_cut, filter_loop_cut, segs_refine). Per-field: C09a_u16/_u32/"
-           "_string/_vbint/_userprop/_nothing_left, C09_error_sticks, C09b_mem/_stream (5-byte vbint), C09c_bool, C09d_maps/_unknown (229 undefined "
-           "identifiers); (b)-(d) are per-field statements plus stickiness; the oracle covers them over generated frames.",
+  "level": "Whole-frame theorems for all four clauses, all 15 types (Proofs/CutP.v). C09a_whole_frames / C09a_read_packet: for every valid frame "
+           "(frame_ok, properties in any order) and every cut position strictly inside a segment of the reference encoder's field map (body_segs: "
+           "2/4-byte integers, strings, property length, properties, topic filters; single bytes, raw payload and reason-code list have no interior) "
+           "UnmarshalBinary on the cut body errs and ReadPacket - remaining length equal to the shortened size, any delivery, anything after - returns "
+           "the error and no packet. C09bcd_whole_frames / C09bcd_read_packet: the fields before any property section of any valid frame followed by a "
+           "poisoned section (5-byte property length; or valid properties then an undefined identifier, a boolean property with value >= 2, or a 5-byte "
+           "subscription identifier) and anything after it: rejected. C09b_stream: 5-byte remaining length. Proof by chains of step_ok/fails_ok links "
+           "per packet type (cchain_fails), getany_cut, getany_poison, filter_loop_cut, segs_refine. Per-field lemmas C09a_u16/.../C09d_unknown kept.",
   "note": NOTE,
-  "technique": "Coq proof (every interior cut of every valid frame rejected, all 15 types; per-field rejection and error stickiness for 5-byte vbint, bad boolean, undefined identifier) + specification-driven must-reject oracle",
+  "technique": "Coq proof (every interior cut and every poisoned property section of every valid frame rejected by UnmarshalBinary and ReadPacket, all 15 types; 5-byte remaining length on the stream) + specification-driven must-reject oracle",
  },
  "C13": {
   "level": "Partial. Theorem C13_schedules: on an abstract shared-memory machine, threads whose programs never write a shared location are race-free under "
